@@ -9176,6 +9176,15 @@ class SVG(Group):
                     del values[SVG_ATTR_CLASS]
                 if SVG_ATTR_CLIP_PATH in values:
                     del values[SVG_ATTR_CLIP_PATH]
+                # x, y, width and height of an enclosing svg position that element only.
+                for non_propagating in (
+                    SVG_ATTR_X,
+                    SVG_ATTR_Y,
+                    SVG_ATTR_WIDTH,
+                    SVG_ATTR_HEIGHT,
+                ):
+                    if non_propagating in values:
+                        del values[non_propagating]
 
                 attributes = dict(elem.attrib)  # priority; lowest
                 attributes[SVG_ATTR_TAG] = tag
